@@ -451,3 +451,8 @@ contract(MS + '.remove_app', types={'appname': 'Name'},
                    ('Node.affinity_counters', 'lambda s: True'), ('IdentityGroup.available', 'lambda g: True'),
                    ('Allocation.apps', 'lambda a: True')],
          props=['C09', 'C10'])
+
+# C10: deleting an instance never passes through a state with a duplicate either
+for _callee in ('delete', 'put'):
+    site(MS + '.remove_app', _callee, asserts=[('C10', 'no_dup()', 'no_dup_before_write')])
+extend(MS + '.remove_app', ensures=[('C10', 'no_dup()', 'no_dup')])
